@@ -522,8 +522,173 @@ def gen_targs_case(rng, variant=None):
     return c
 
 
+def gen_combo(rng, idx=None):
+    """compositional generator: the feature axes are chosen independently (trait signature x
+    header x how the trait arguments are given x nested specialisations x keys (trait, bounded
+    type, payload form, second key with wildcards) x ?Sized x extra bounds x placement), the
+    blocks of a family are pairwise distinguished on the first key by construction"""
+    pk = Picker(rng, idx)
+    # ---- trait signature: list of (kind, decl text) ; P may be bounded / relaxed
+    sig = pk.choice(['none', 'P', 'aP', 'PN', 'aPN', 'PQ'])
+    pbound = pk.choice(['', 'Tr0', '?Sized'])
+    nested_how = pk.choice(['none', 'wrap', 'concrete', 'identify', 'arg', 'two'])
+    root_h = pk.choice(['T', 'pair', 'box', 'ref'])
+    key_tr = pk.choice(['D', 'D2', 'Dp', 'Dp<u8>', 'Dc<1>'])
+    payload = pk.choice(['ground', 'generic'])
+    decl = {'none': [], 'P': ['P'], 'aP': ["'a", 'P'], 'PN': ['P', 'N'], 'aPN': ["'a", 'P', 'N'], 'PQ': ['P', 'Q']}[sig]
+    parts = []
+    for d in decl:
+        if d == "'a":
+            parts.append("'a")
+        elif d == 'P':
+            b = [x for x in [("'a" if "'a" in decl else ''), pbound] if x]
+            parts.append('P' + (': ' + ' + '.join(b) if b else ''))
+        elif d == 'N':
+            parts.append('const N: usize')
+        else:
+            parts.append('Q: Tr0 = X0')
+    tg = '<%s>' % ', '.join(parts) if parts else ''
+    self_fmt, used0 = HEADERS[root_h]
+    used = list(used0)
+    if 'P' in decl and 'T1' not in used:
+        used.append('T1')
+    if "'a" in decl and 'L0' not in used:
+        used.append('L0')
+    if 'N' in decl:
+        used.append('N0')
+    # the trait arguments of the root blocks: bare parameters (P := T1; N := N0 or a literal)
+    n_lit = 'N' in decl and rng.random() < 0.4
+    def targs(p_arg='{T1}', n_arg=None):
+        out = []
+        for d in decl:
+            if d == "'a":
+                out.append('{L0}')
+            elif d == 'P':
+                out.append(p_arg)
+            elif d == 'N':
+                out.append(n_arg or ('3' if n_lit else '{N0}'))
+        return ', '.join(out) if out else None
+    if n_lit and 'N0' in used and '{N0}' not in self_fmt:
+        used.remove('N0')
+    assoc = 'G'
+    key_b = '{T0}'
+    pl = lambda: rng.choice(['inline', 'where'])
+    groups = list(GROUPS) + ['GD']
+    rng.shuffle(groups)
+    def payload_of(g, slots_used):
+        if payload == 'generic' and g in ('GA', 'GB'):
+            return {'GA': 'Vec<{T9}>', 'GB': 'Option<{T9}>'}[g]
+        return g
+    nroot = pk.choice([1, 2, 2])
+    second_key = 'T1' in used and rng.random() < 0.4      # a second key on T1 with wildcards in some blocks
+    def mk_block(self_f, ta, used_slots, key_bounded, g, tag, relaxed=None, extra=()):
+        row = payload_of(g, used_slots)
+        u = list(used_slots) + (['T9'] if '{T9}' in row else [])
+        slots = mk_slots(rng, u)
+        order = list(slots); rng.shuffle(order)
+        order = [x for x in order if x[0] == 'L'] + [x for x in order if x[0] != 'L']
+        binds = {assoc: row}
+        if key_tr == 'D2' and rng.random() < 0.5:
+            binds['H'] = rng.choice(GROUPS)
+        bounds = [(key_bounded, key_tr, binds, pl())]
+        if second_key and '{T1}' in (self_f + (ta or '')):
+            bounds.append(('{T1}', 'D', ({'G': rng.choice(GROUPS)} if rng.random() < 0.6 else {}), pl()))
+        if 'P' in decl and pbound == 'Tr0' and ta and '{T1}' in ta:
+            pa = [x.strip() for x in ta.split(',') if '{T1}' in x][0]
+            bounds.append((pa, 'Tr0', {}, pl() if pa == '{T1}' else 'where'))
+        if "'a" in decl and 'P' in decl and ta and '{T1}' in ta:
+            pa = [x.strip() for x in ta.split(',') if '{T1}' in x][0]
+            bounds.append(('{T1}', '__outlives__', {}, 'where'))     # T: 'x (implies Vec<T>: 'x)
+        for e in extra:
+            bounds.append(e)
+        rng.shuffle(bounds)
+        return Block({x: slots[x] for x in order}, ta, self_f, bounds, tag, relaxed=dict(relaxed or {}),
+                     overrides=['NAME'] + (['ID'] if rng.random() < 0.5 else []))
+    relax_p = {'T1': pl()} if ('P' in decl and pbound == '?Sized' and rng.random() < 0.7) else {}
+    blocks, headers = [], []
+    for i in range(nroot):
+        blocks.append(mk_block(self_fmt, targs(), used, key_b, groups[i], 'r%d' % i, relaxed=relax_p))
+        headers.append((self_fmt, [x for x in used]))
+    # ---- nested members
+    def nested(kind_, g, tag):
+        if kind_ == 'wrap' and root_h in ('T', 'pair'):
+            sf = self_fmt.replace('{T0}', 'Vec<{T0}>', 1)
+            return mk_block(sf, targs(), used, 'Vec<{T0}>', g, tag, relaxed=relax_p), (sf, list(used))
+        if kind_ == 'concrete' and root_h == 'pair':
+            sf = '({T0}, X0)'          # T1 := X0 everywhere, also as the trait argument
+            u = [x for x in used if x != 'T1']
+            return mk_block(sf, targs(p_arg='X0'), u, '{T0}', g, tag), (sf, u)
+        if kind_ == 'identify' and root_h == 'pair' and 'P' not in decl:
+            sf = '({T0}, {T0})'
+            u = [x for x in used if x != 'T1']
+            return mk_block(sf, targs(), u, '{T0}', g, tag), (sf, u)
+        if kind_ == 'arg' and 'P' in decl and pbound != 'Tr0':
+            ta = targs(p_arg='Vec<{T1}>')
+            return mk_block(self_fmt, ta, used, key_b, g, tag), (self_fmt, list(used))
+        return None
+    kinds_n = {'none': [], 'wrap': ['wrap'], 'concrete': ['concrete'], 'identify': ['identify'], 'arg': ['arg'], 'two': ['wrap', 'arg']}[nested_how]
+    gi = nroot
+    for kn in kinds_n:
+        r = nested(kn, groups[gi % len(groups)], 'n%d' % gi)
+        if r:
+            blocks.append(r[0]); headers.append(r[1]); gi += 1
+    order = list(range(len(blocks)))
+    if pk.choice([False, True]):
+        rng.shuffle(order)
+    blocks = [blocks[i] for i in order]; headers = [headers[i] for i in order]
+    for i, b in enumerate(blocks):
+        b.tag = 'b%d' % i
+    # ---- probes and world
+    atoms = ATOMS[:3]
+    self_pool = []
+    for (sf, u) in headers:
+        for inst in instances(sf, [x for x in u if '{%s}' % x in sf], rng, 6, unsized=(pbound == '?Sized')):
+            ty = subst_fmt(sf, inst)
+            if ty not in self_pool:
+                self_pool.append(ty)
+    rng.shuffle(self_pool)
+    p_pool = ['X0', 'X1', 'Vec<X0>'] + (['str'] if pbound == '?Sized' else [])
+    if pbound == 'Tr0':
+        p_pool = ['X0', 'Vec<X0>']
+    ta_pool = [None]
+    if decl:
+        ta_pool = []
+        for pa in p_pool:
+            out = []
+            for d in decl:
+                if d == "'a":
+                    out.append("'static")
+                elif d == 'P':
+                    out.append(pa)
+                elif d == 'N':
+                    out.append(rng.choice(['3', '3', '2']))
+            ta_pool.append(', '.join(out))
+    if "'a" in decl:
+        self_pool = [t for t in self_pool]
+    probes = [(ta, ty) for ty in self_pool[:6] for ta in ta_pool][:14]
+    world = {}
+    tys = set()
+    for (ta, ty) in probes:
+        tys.add(ty)
+    base = ['X0', 'X1', 'X2', 'Vec<X0>', 'Vec<X1>', 'str'] + sorted(tys)
+    for ty in base:
+        for trn in {key_tr, 'D'}:
+            if rng.random() < 0.85:
+                vals = {}
+                for a_ in assocs_of(trn):
+                    g = rng.choice(groups[:max(2, len(blocks))])
+                    vals[a_] = rng.choice(['Vec<X0>', 'Option<X1>', g]) if (payload == 'generic' and trn == key_tr and rng.random() < 0.6) else (g if g != 'GD' or trn == key_tr else 'GA')
+                world[(ty, trn)] = vals
+    extra_world = 'impl Tr0 for X0 {}\nimpl Tr0 for Vec<X0> {}\n' if ('Q' in decl or pbound == 'Tr0') else ''
+    c = Case('combo', 'K', tg, blocks, probes, world, extra_world=extra_world)
+    c.combo = dict(sig=sig, pbound=pbound, nested=nested_how, root=root_h, key=key_tr, payload=payload)
+    return c
+
+
 def gen_case(rng, kind, idx=None):
     pk = Picker(rng, idx)
+    if kind == 'combo':
+        return gen_combo(rng, idx)
     if kind == 'targs':
         return gen_targs_case(rng)
     if kind.startswith('targs:'):
